@@ -21,6 +21,7 @@ from jsonpath.function_extensions.filter_function import ExpressionType
 
 from .exceptions import JSONPathTypeError
 from .function_extensions import FilterFunction
+from .match import JSONPathMatch
 from .match import NodeList
 from .selectors import Filter as FilterSelector
 from .selectors import ListSelector
@@ -534,27 +535,36 @@ class SelfPath(Path):
     def __str__(self) -> str:
         return "@" + str(self.path)[1:]
 
+    def _current_node(self, context: FilterContext) -> NodeList:
+        """The node list for a query applied to a string.
+
+        A string has no children, and `finditer` would try to decode it as a
+        JSON document.
+        """
+        if self.path.empty():
+            return NodeList(
+                [
+                    JSONPathMatch(
+                        filter_context=context.extra_context,
+                        obj=context.current,
+                        parent=None,
+                        path=context.env.root_token,
+                        parts=(),
+                        root=context.root,
+                    )
+                ]
+            )
+        return NodeList()
+
     def evaluate(self, context: FilterContext) -> object:
-        if isinstance(context.current, str):  # TODO: refactor
-            if self.path.empty():
-                return context.current
-            return NodeList()
-        if not isinstance(context.current, (Sequence, Mapping)):
-            if self.path.empty():
-                return context.current
-            return NodeList()
+        if isinstance(context.current, str):
+            return self._current_node(context)
 
         return NodeList(self.path.finditer(context.current))
 
     async def evaluate_async(self, context: FilterContext) -> object:
-        if isinstance(context.current, str):  # TODO: refactor
-            if self.path.empty():
-                return context.current
-            return NodeList()
-        if not isinstance(context.current, (Sequence, Mapping)):
-            if self.path.empty():
-                return context.current
-            return NodeList()
+        if isinstance(context.current, str):
+            return self._current_node(context)
 
         return NodeList(
             [match async for match in await self.path.finditer_async(context.current)]
